@@ -40,8 +40,10 @@ OPEN_STATEMENTS = [
     'documented contract (operator_a: identity / i^ j / normal-ordered i^ j^ i j; operator_b: identity / one-body / '
     'normal-ordered two-body), for every tolerance, in every ring with the CAR and on the Fock space '
     '(dc_commutator_sound_ring, dc_commutator_sound; helpers dc_one_body_one_body_sound_ring, '
-    'dc_one_body_two_body_sound, dc_two_body_two_body_sound, dc_three_body_insertion_sound); open: the out-of-spec '
-    'fallback branch (operands outside the contract; Corr + oracle on random out-of-spec operators)',
+    'dc_one_body_two_body_sound, dc_two_body_two_body_sound, dc_three_body_insertion_sound); the out-of-spec '
+    'fallback branch is proved for non-diagonal normal-ordered two-body terms of operator_a in the exact regime '
+    '(dc_commutator_fallback_sound_ring, dc_commutator_fallback_sound); open: other out-of-spec operands '
+    '(three-body, odd-length terms: Corr + oracle on random out-of-spec operators)',
     'trivially_double_commutes_dual_basis soundness holds only outside finding F07 (tdc_dual_sound_partial); '
     'trivially_double_commutes_dual_basis_using_term_info is proved sound for the grouped terms the caller builds '
     '(two-mode hopping / number groups, single-mode external-potential terms) under the jellium promise '
